@@ -64,7 +64,8 @@ theorem gnuLoop_total (t : SymTab) (ht : TabOk t) {h : SecBuf} (hs : Sec h) {d :
   | succ k ih =>
     intro ci ch sn a h1 h2
     unfold TQ.gnuLoop
-    dsimp only
+    tq_tie
+    try dsimp only
     have hci : (ci + 1).toNat = ci.toNat + 1 := by
       have h1' : (1 : BitVec 32).toNat = 1 := rfl
       simp only [BitVec.toNat_add, h1', Nat.reducePow]
@@ -124,6 +125,7 @@ theorem gnuLoop_total (t : SymTab) (ht : TabOk t) {h : SecBuf} (hs : Sec h) {d :
 theorem gnuLookup_total (t : SymTab) (ht : TabOk t) (h : SecBuf) (hs : Sec h) (hsmall0 : Small h)
     (name : Bytes) (a : Attrs) : ∃ r, TQ.gnuLookup t h name a = .ok r := by
   unfold TQ.gnuLookup
+  tq_tie
   simp only [hs.secData]
   have hhdr : (if t.c32 = true then tq_gnu32_hdr_bad h.data.isNone h.size else tq_gnu64_hdr_bad h.data.isNone h.size) =
       tq_gnu32_hdr_bad h.data.isNone h.size := by split <;> rfl
